@@ -245,8 +245,9 @@ def encode(types, values):
 class Src:
     """a byte source with a length: calldata, or a memory/return-data payload"""
 
-    def __init__(self, byte, size):
+    def __init__(self, byte, size, bounded=False):
         self.byte, self.size = byte, size  # byte(i): value of byte i, zero at and beyond size
+        self.bounded = bounded  # True: a memory / return-data payload - every item must end inside it
 
     def word(self, off):
         return z3.Concat(*[self.byte(off + BV(j)) for j in range(32)])
@@ -298,6 +299,8 @@ def decode_dynamic(t, src, at):
         data = z3.Lambda([idx], src.byte(at + BV(32) + idx))
         # the data region [at+32, at+32+len) must not wrap around the address space (an empty region cannot)
         ok = z3.And(z3.ULE(ln, BV(N)), z3.Or(ln == 0, z3.And(z3.UGE(at + BV(32), at), z3.UGE(at + BV(32) + ln, at + BV(32)))))
+        if src.bounded:  # the length word and the data lie inside the payload
+            ok = z3.And(ok, z3.UGE(at + BV(32), at), z3.ULE(at + BV(32), src.size), z3.UGE(at + BV(32) + ln, at + BV(32)), z3.ULE(at + BV(32) + ln, src.size))
         # canonical: padding up to the next word boundary is zero
         pads = []
         for j in range(31):
@@ -312,6 +315,9 @@ def decode_dynamic(t, src, at):
         if is_dynamic(et):
             raise ValueError("DynArray of dynamic elements: not in the decoder subset")
         ew = static_words(et)
+        if src.bounded:
+            endp = at + BV(32) + ln * BV(32 * ew)
+            oks += [z3.UGE(at + BV(32), at), z3.ULE(at + BV(32), src.size), z3.UGE(endp, at + BV(32)), z3.ULE(endp, src.size)]
         elems = []
         for i in range(N):
             ws = [src.word(at + BV(32 + 32 * (i * ew + j))) for j in range(ew)]
